@@ -368,6 +368,14 @@ func (in *interp) equals(t types.Type, x, y value) value {
 	if isPoison(x) || isPoison(y) {
 		return poison{"compare"}
 	}
+	switch cx := x.(type) {
+	case codecNum, codecBlob:
+		return in.deepEqual(cx, y, map[[2]*value]bool{})
+	}
+	switch y.(type) {
+	case codecNum, codecBlob:
+		return false // a plain byte never equals an encoded object
+	}
 	if sx, ok := x.(*Sym); ok {
 		return mkval(in.ctx.Eq(sx.T, in.term(y)), types.Bool)
 	}
